@@ -193,7 +193,7 @@ HELLO = "core :: #mod(\"core\");\n\nmain :: () {\n    core.println(\"Hello, Worl
 HELLO_CPU = 1.0     # generous nominal CPU seconds of compiling HELLO (measured 0.5 - 0.9 s on an idle machine)
 
 
-def recalibrate(capy, results, v):
+def recalibrate(capy, results, v, inputs=None):
     """The 10 s of the property are measured as CPU time of the child.  On a heavily overloaded machine
     even CPU time inflates (page faults, cache thrash: 10x was observed), so when some input exceeded the
     limit the same measurement is made for a reference program, 8 copies in parallel, and the limit is
@@ -214,6 +214,19 @@ def recalibrate(capy, results, v):
             r = dict(r)
             r["kind"], r["site"], r["msg"] = k, s_, m
             results[i] = r
+    # a slow run that FINISHED normally when left running is only believed when it is slow again when
+    # re-run alone, one at a time (a single stalled child -- 17.8 s of CPU for a 0.3 s compile -- was
+    # observed once on an otherwise idle machine)
+    if inputs is not None:
+        again = 0
+        for i in slow:
+            r = results[i]
+            if r["kind"] == "timeout" and not r["killed"]:
+                r2 = run_one(capy, inputs[i][1])
+                again += 1
+                if r2["kind"] != "timeout":
+                    results[i] = r2
+        v.coverage["slow_runs_rerun_alone"] = again
     return results
 
 
@@ -296,7 +309,7 @@ def run(tier, seed):
     if capy:
         inputs = fuzz_inputs(fl.rng.fork("fuzz"), tier)
         results = C.parallel_map(lambda it: run_one(capy, it[1]), inputs)
-        results = recalibrate(capy, results, v)
+        results = recalibrate(capy, results, v, inputs)
         hist, kinds, sizes = {}, {}, {"<100": 0, "<1k": 0, "<10k": 0, "<64k": 0}
         by_class = {}
         reached = 0
